@@ -1318,6 +1318,93 @@ def r25_vec_extend(toks, counts):
     return out
 
 
+def r10b_if_continue(toks, counts):
+    """inside a `for` body: `if C { S; continue; } REST` -> `if C { S } else { REST }` (Verus has no `continue` in for-loops).
+    Only when the `if` is a direct statement of the loop body, has no `else`, and `continue;` is its last statement."""
+    changed = True
+    while changed:
+        changed = False
+        n = len(toks)
+        i = 0
+        while i < n and not changed:
+            if is_id(toks[i], 'for'):
+                k = i + 1
+                saw_in = False
+                while k < n and not is_p(toks[k], '{'):
+                    if toks[k][0] == 'p' and toks[k][1] in '([':
+                        k = match_close(toks, k)
+                    if is_id(toks[k], 'in'):
+                        saw_in = True
+                    k += 1
+                if saw_in and k < n:
+                    body_open = k
+                    body_close = match_close(toks, k)
+                    # direct statements of the body
+                    j = body_open + 1
+                    while j < body_close:
+                        t = toks[j]
+                        if t[0] in TRIVIA:
+                            j += 1
+                            continue
+                        if is_id(t, 'if'):
+                            b = j + 1
+                            while b < body_close and not is_p(toks[b], '{'):
+                                if toks[b][0] == 'p' and toks[b][1] in '([':
+                                    b = match_close(toks, b)
+                                b += 1
+                            bc = match_close(toks, b)
+                            nx = next_sig(toks, bc + 1)
+                            has_else = nx < body_close and is_id(toks[nx], 'else')
+                            # last statement inside the if-block
+                            last = prev_sig(toks, bc - 1)
+                            if not has_else and is_p(toks[last], ';'):
+                                c = prev_sig(toks, last - 1)
+                                if is_id(toks[c], 'continue'):
+                                    ind = _line_indent(toks, j)
+                                    rest = toks[bc + 1:body_close]
+                                    # drop `continue;` (and the whitespace before it)
+                                    cut_from = c
+                                    while cut_from - 1 > b and toks[cut_from - 1][0] == 'ws':
+                                        cut_from -= 1
+                                    head = toks[:cut_from] + [('ws', '\n' + ind)] + [toks[bc]]
+                                    rest_sig = [x for x in rest if x[0] not in TRIVIA]
+                                    if rest_sig:
+                                        new_rest = []
+                                        for x in rest:
+                                            if x[0] == 'ws' and '\n' in x[1]:
+                                                new_rest.append(('ws', x[1] + '    '))
+                                            else:
+                                                new_rest.append(x)
+                                        while new_rest and new_rest[-1][0] == 'ws':
+                                            new_rest.pop()
+                                        tail = [('ws', ' '), ('id', 'else'), ('ws', ' '), ('p', '{')] + new_rest + [('ws', '\n' + ind), ('p', '}')]
+                                    else:
+                                        tail = []
+                                    close_ws = []
+                                    q = body_close - 1
+                                    while q >= 0 and toks[q][0] == 'ws':
+                                        close_ws.insert(0, toks[q])
+                                        q -= 1
+                                    toks = head + tail + close_ws + toks[body_close:]
+                                    counts['R10'] = counts.get('R10', 0) + 1
+                                    changed = True
+                                    break
+                            j = bc + 1
+                            if has_else:
+                                # skip the else chain
+                                e = nx + 1
+                                while e < body_close and not is_p(toks[e], '{'):
+                                    e += 1
+                                j = match_close(toks, e) + 1 if e < body_close else body_close
+                            continue
+                        if t[0] == 'p' and t[1] in rtok.OPEN:
+                            j = match_close(toks, j) + 1
+                            continue
+                        j += 1
+            i += 1
+    return toks
+
+
 def r9_enumerate(toks, counts):
     """`for (i, P) in E.enumerate() { B }`            ->  `{ let mut i: usize = 0; for P in E { B i += 1; } }`
        `for (i, P) in E.enumerate().skip(N) { B }`    ->  same with the body guarded by `if i >= N { B }`
@@ -1469,6 +1556,7 @@ def extract_region(src_text, path, opts=None):
                 item = r24_name_tail_expr(item, counts)
             item = r21_map_err_anyhow(item, counts)
             item = r25_vec_extend(item, counts)
+            item = r10b_if_continue(item, counts)
             item = r13_binders(item, counts)
     if 'R10' in opts.get('rules', ()):
         item = r10_trailing_continue(item, counts)
